@@ -10,6 +10,7 @@ REG.assumptions += [
     'mobility callables return positive numbers (the database expression is exp(.)/(R T); its value is an input here)',
     'the partial chemical-potential derivatives returned by the bordered-Hessian solve satisfy the Gibbs-Duhem relation sum_k x_k dmu_k/dx_j = const_j (used only in the Darken clause; property of an exact Hessian solve, assumed)',
     'np.linalg.inv returns the inverse (entries opaque)',
+    'hessian contract: the free-energy Hessian filled in by the phase record is symmetric (second derivatives of a smooth function); mole amounts per formula unit > 0',
 ]
 REG.undecided += [
     'chemical-potential derivative matrix equals the finite-difference derivative of EQUILIBRIUM chemical potentials (statement about pycalphad\'s equilibrium solver and database values)',
